@@ -359,6 +359,7 @@ class DriverBase(object):
         if schema == "nexus":
             doc["taxa"] = rng.choice(["none", "none", "one", "one", "two"])
             doc["translate"] = rng.random() < 0.3
+            doc["translate_mixed"] = doc["translate"] and rng.random() < 0.5   # every second tree names one translated taxon by its full label
             if nmat and doc["taxa"] == "none":
                 doc["datablock"] = True       # a matrix needs NTAX: from a TAXA block or from a DATA block
                 nmat = 1
